@@ -53,7 +53,8 @@ def build_harness():
             os.remove(b)
     if REPO != "/repo":
         sh(["go", "mod", "edit", "-replace=github.com/cbehopkins/gkvlite=" + REPO], cwd=HARNESS_DIR, env=GOENV)
-    rc, out = sh(["go", "build", "-tags", "verif", "-o", HARNESS, "./cmd/harness"], cwd=HARNESS_DIR, env=GOENV)
+    cover = ["-cover", "-coverpkg=github.com/cbehopkins/gkvlite,gkvverif/cmd/harness"] if os.environ.get("VERIF_COVER") else []  # measurement aid, see bin/coverage
+    rc, out = sh(["go", "build", "-tags", "verif"] + cover + ["-o", HARNESS, "./cmd/harness"], cwd=HARNESS_DIR, env=GOENV)
     if rc != 0:
         return False, out
     rc, out2 = sh(["go", "build", "-o", EXTRACT, "./cmd/extract"], cwd=HARNESS_DIR, env=GOENV)
